@@ -403,7 +403,8 @@ def points_for(shape, n=25):
     gx, gy = grid(shape, n)
     X, Y = np.meshgrid(gx, gy)
     S = shape.size() or 1e-3 * shape.scale()
-    deltas = [1e-4 * S, 1e-3 * S, 3e-2 * S]
+    # from just outside the band (band = 1e-6 * scale) upwards: a boundary displaced by a few bands is visible
+    deltas = [4e-6 * S, 2e-5 * S, 1e-4 * S, 1e-3 * S, 3e-2 * S]
     sx, sy = shape.straddle(deltas)
     parts_x, parts_y = [X.ravel(), sx], [Y.ravel(), sy]
     if isinstance(shape, Poly):
